@@ -14,7 +14,9 @@ import export
 import impl
 import tlc
 
-CAP = 1500          # IterateSATGen's exhaustion is quadratic; larger spaces are trace-only
+import os as _os
+# IterateSATGen's exhaustion is quadratic in the number of solutions; larger spaces are trace-only
+CAP = 600 if _os.environ.get("VERIF_TIER_EFFECTIVE", "quick") == "quick" else 1500
 
 
 class CaseResult:
